@@ -129,6 +129,7 @@ func (w *World) LoadEmitted() error {
 		return w.emittedErr
 	}
 	w.emittedLoaded = true
+	defer func() { w.writtenMu.Lock(); w.written = nil; w.writtenMu.Unlock() }()
 	for i, spec := range []struct {
 		name    string
 		client  bool
